@@ -45,6 +45,10 @@ def handleLine (line : String) : String :=
     | "c14n" => viaSpec (C14.handleNum args) obs
     | "c01" => Req.handleC01 args obs
     | "c01s" => Req.handleSeq args obs
+    | "c01n" =>
+      -- a server without the timer thread: late, split and kept-alive requests are served as usual
+      let model := "late=200 split=200 keepalive=200+200"
+      model ++ "\t" ++ (if obs == model then "ok" else "FAIL:request-not-served-without-timer-thread:")
     | "c02" => Req.handleC02 args obs
     | "c03" => Req.handleC03 args obs
     | "c04" | "c09" | "c10" => C04.handle suite args obs
